@@ -5,6 +5,8 @@ import os
 import numpy as np
 
 from .. import engine, optics as op, refmodel as rm
+from .. import histories
+from ..histories import t_callhist        # worker task of the history harness (mc/histories.py)
 
 PID = 'C03'
 MOD = 'mc.props.c03'
@@ -296,6 +298,8 @@ def chk_subarray(case, acc, seed):
 DISPATCH = {'chain': chk_chain, 'subarray': chk_subarray}
 
 
+DISPATCH['histop'] = histories.chk_case
+
 def t_support(arg, acc):
     tier, seed, name = arg['tier'], arg['seed'], arg['support']
     n = len(SUPPORTS[tier]['sets'][name])
@@ -321,6 +325,7 @@ def run(tier, seed, acc, procs=None):
             tasks.append(('t_support', {'tier': tier, 'seed': seed, 'support': name, 'lo': lo, 'hi': min(lo + step, total)}))
     acc.states += 1
     acc.transitions += len(tasks)
+    tasks += histories.tasks_for(PID, seed)        # pairwise call histories over the operations this property is anchored in
     engine.run_parallel(MOD, tasks, acc, procs)
     n = len(next(iter(SUPPORTS[tier]['sets'].values())))
     return {
@@ -338,5 +343,8 @@ def run(tier, seed, acc, procs=None):
 
 
 def replay(case, acc):
+    if case.get('kind') == 'histop':
+        import os as _os
+        return histories.chk_case(case, acc, int(_os.environ.get('VERIF_SEED', '0') or 0))
     seed = int(os.environ.get('VERIF_SEED', '0') or 0)
     DISPATCH[case['kind']](case, acc, seed)
